@@ -88,6 +88,7 @@ type c14Env struct {
 	seenKey                 map[string]bool
 	inlining                map[*FuncInfo]bool
 	unsignedMax             bool
+	permTerms               map[string]bool // terms of the index permutations of Children (c14y.go)
 }
 
 func runC14(c *Ctx) {
@@ -95,7 +96,7 @@ func runC14(c *Ctx) {
 		"C14.a every built-in widget's Draw returns a surface built by NewSurface with arguments <= ctx.Max.* (abstract interpretation in the bound domain v <= Max+k, through findContainerSize, whose every return is an obligation), or a child surface drawn with Max' <= Max, or the empty surface; Surface.Size is never modified after construction",
 		"C14.b NewSurface allocates width*height in a type that cannot wrap for uint16*uint16; WriteCell computes row*Width+col in such a type and stores only under col < Width and row < Height (strict); Surface.Buffer is stored into only by WriteCell (and Fill through its own range key) and never aliased or replaced",
 		"C14.c center.Draw: child origin = ((parent.Width-child.Width)/2, (parent.Height-child.Height)/2) passed in (col,row) order, on the parent surface it returns (an origin with several definitions, or computed by a helper with several returns, is judged path by path: every value is that quotient, the constant 0 only under a guard implying child.dim >= parent.dim - 1 of the same axis); the child is drawn with Max' <= Max",
-		"C14.d Surface.render: own cells at (i % Width, i / Width) through win.SetCell before any child; Children (or the fresh copy of them that is painted) sorted by ZIndex ascending before the child loop — sort.Slice/SliceStable, slices.SortFunc/SortStableFunc or sort.Sort/Stable, the less function / comparator / Less method evaluated for key(a) <, ==, > key(b), a wrapping difference a.Z-b.Z is not a comparison; each child window = win.New(Origin.Col, Origin.Row, Size.Width, Size.Height) and the recursion uses it; AddChild/NewSubSurface forward (col,row,surface) unchanged and append to Children",
+		"C14.d Surface.render: own cells at (i % Width, i / Width) through win.SetCell before any child; Children (or the fresh copy of them that is painted) sorted by ZIndex ascending before the child loop — sort.Slice/SliceStable, slices.SortFunc/SortStableFunc or sort.Sort/Stable, the less function / comparator / Less method evaluated for key(a) <, ==, > key(b), a wrapping difference a.Z-b.Z is not a comparison; each child window = win.New(Origin.Col, Origin.Row, Size.Width, Size.Height) and the recursion uses it; AddChild/NewSubSurface forward (col,row,surface) unchanged and append to Children; when the children are painted through a local filled from Children by a loop — an index permutation `order` (painted as Children[order[k]]) or an element/pointer copy — the local holds one entry per index of Children (sized by len or appended to from empty, one fill statement keyed by the loop key in a loop that cannot leave early, no other write/alias/escape), is sorted after it was filled, and the less function of a sorted index permutation compares Children[order[i]].ZIndex with Children[order[j]].ZIndex (positions i, j of the permutation) resp. Children[a].ZIndex with Children[b].ZIndex (elements a, b): reading Children[i], Children[j] by position is violated",
 	}
 	c.NotDec = []string{
 		"absence of panics in general (deliberate panics on unbounded constraints in Center/Button/Dynamic included)",
@@ -501,6 +502,52 @@ func (sc *c14Scope) enter(call *ast.CallExpr) *c14Scope {
 	return ns
 }
 
+// enterLit builds the scope of a call of a local closure (`z := func(k int) int { ... }; z(i)`):
+// a single-definition local bound to a function literal. Captured variables are resolved where
+// the literal is written, its parameters are the call's arguments.
+func (sc *c14Scope) enterLit(call *ast.CallExpr) *c14Scope {
+	if sc.depth >= 3 || call.Ellipsis.IsValid() {
+		return nil
+	}
+	id, ok := unparen(call.Fun).(*ast.Ident)
+	if !ok {
+		return nil
+	}
+	if lv, isVar := sc.info.ObjectOf(id).(*types.Var); !isVar || lv.IsField() {
+		return nil
+	}
+	fv := sc.v(id).canon()
+	lit, ok := fv.x.(*ast.FuncLit)
+	if !ok || lit.Type.Params == nil {
+		return nil
+	}
+	var ps []types.Object
+	for _, f := range lit.Type.Params.List {
+		if len(f.Names) == 0 {
+			return nil
+		}
+		if _, variadic := f.Type.(*ast.Ellipsis); variadic {
+			return nil
+		}
+		for _, n := range f.Names {
+			ps = append(ps, fv.sc.info.Defs[n])
+		}
+	}
+	if len(ps) != len(call.Args) {
+		return nil
+	}
+	env := map[types.Object]c14V{}
+	for k, b := range fv.sc.env {
+		env[k] = b
+	}
+	for i, p := range ps {
+		if p != nil {
+			env[p] = sc.v(call.Args[i])
+		}
+	}
+	return &c14Scope{e: sc.e, pkg: fv.sc.pkg, info: fv.sc.info, fd: fv.sc.fd, body: lit.Body, env: env, site: fv.sc.site, depth: sc.depth + 1, outer: fv.sc}
+}
+
 // pureReturn: the helper's body is local definitions followed by one `return expr`.
 func (sc *c14Scope) pureReturn() ast.Expr {
 	bl, ok := sc.body.(*ast.BlockStmt)
@@ -601,6 +648,9 @@ func (v c14V) canon() c14V {
 				return v
 			}
 			ns := v.sc.enter(t)
+			if ns == nil {
+				ns = v.sc.enterLit(t)
+			}
 			if ns == nil {
 				return v
 			}
@@ -3366,15 +3416,20 @@ func (e *c14Env) checkRender() {
 	rcall := rec.n.(*ast.CallExpr)
 	rs := rec.sc
 	recLoc, okLoc := locOf(rec)
-	// the slice that is painted: Children itself, or a fresh copy of it (make+copy, append(nil, S...), slices.Clone)
+	// the slice that is painted: Children itself; a fresh copy of it (make+copy, append(nil, S...),
+	// slices.Clone, or filled element by element in a loop); or an index permutation `order` that is
+	// painted as Children[order[k]] (c14y.go) — made in render or in a helper that returns it
 	painted := chID
-	var cp *c14Copy
+	var pt *c14Painted
 	key, loop, ok := rec.loopKey(chID)
 	if !ok {
-		for _, cand := range e.childrenCopies(sc, chID) {
+		for _, cand := range e.paintedCandidates(sc, chID) {
 			cand := cand
-			if key, loop, ok = rec.loopKey(cand.term); ok {
-				painted, cp = cand.term, &cand
+			if key, loop, ok = rec.loopKey(cand.use); ok {
+				painted, pt = cand.use, &cand
+				if cand.kind == "index" {
+					e.permTerms = map[string]bool{cand.term: true, cand.use: true}
+				}
 				break
 			}
 		}
@@ -3383,13 +3438,25 @@ func (e *c14Env) checkRender() {
 		c.undecided("C14.d", fn+"/children: loop over Children", rec.top().Pos(), "the recursive call is not inside a loop over every index of s.Children")
 		return
 	}
-	if cp == nil {
-		c.ok("C14.d", fn+"/children: loop over Children", loop.Pos(), "every child is visited in slice order")
-	} else {
-		cpLoc, okCp := g.Locate(cp.madeAt)
-		c.check(okCp && g.MustPrecede(func(n ast.Node) bool { return n == cp.madeAt }, recLoc) && !g.ReachesAvoiding(recLoc, cpLoc, nil), "C14.d", fn+"/children: loop over Children", loop.Pos(), "every child is visited in slice order (through "+cp.obj.Name()+", a fresh copy of Children)", "the painted slice "+cp.obj.Name()+" is not filled from Children on every path before the child loop")
+	// inLoop: the event happens inside the loop that fills the painted slice
+	inLoop := func(at c14At) bool {
+		return pt != nil && pt.loop != nil && (c14Within(at.n, pt.loop) || c14Within(at.top(), pt.loop))
 	}
 	elem := painted + "[" + key + "]"
+	if pt == nil {
+		c.ok("C14.d", fn+"/children: loop over Children", loop.Pos(), "every child is visited in slice order")
+	} else {
+		must, noBack, okEv := e.evOrder(pt.made, rec)
+		filled := must && noBack && !inLoop(rec)
+		if !okEv {
+			c.undecided("C14.d", fn+"/children: loop over Children", loop.Pos(), "the statement that fills %s and the child loop could not be placed on one control-flow graph", pt.obj.Name())
+		} else if pt.kind == "index" {
+			elem = chID + "[" + painted + "[" + key + "]]"
+			c.check(filled, "C14.d", fn+"/children: loop over Children", loop.Pos(), "every child is visited once (through "+pt.obj.Name()+", which is filled with every index of Children)", "the index slice "+pt.obj.Name()+" is not filled with the indexes of Children on every path before the child loop")
+		} else {
+			c.check(filled, "C14.d", fn+"/children: loop over Children", loop.Pos(), "every child is visited in slice order (through "+pt.obj.Name()+", a fresh copy of Children)", "the painted slice "+pt.obj.Name()+" is not filled from Children on every path before the child loop")
+		}
+	}
 	rsel, _ := unparen(rcall.Fun).(*ast.SelectorExpr)
 	c.check(rsel != nil && rs.v(rsel.X).term() == elem+".Surface", "C14.d", fn+"/children: recursion into child.Surface", rec.top().Pos(), "child.Surface.render", "the recursive call does not render the loop's child surface")
 	var nwV c14V
@@ -3430,7 +3497,7 @@ func (e *c14Env) checkRender() {
 			return false
 		}
 		t := e.sortTarget(in, call)
-		return t != "" && (t == painted || t == chID)
+		return t != "" && (t == painted || t == chID || (pt != nil && t == pt.term))
 	})
 	if len(sorts) == 0 {
 		c.bad("C14.d", fn+"/children sorted by ZIndex ascending", fi.Decl.Pos(), "Children are not sorted before they are painted: z-order is not respected")
@@ -3445,16 +3512,30 @@ func (e *c14Env) checkRender() {
 		}
 		k := fn + "/children sorted by ZIndex ascending"
 		top := at.top()
-		if cp != nil {
-			// the sort must order the slice that is painted: either the copy (after it was filled), or Children before the copy is taken
-			cpLoc, okCp := g.Locate(cp.madeAt)
-			if target == chID {
-				c.check(okCp && g.MustPrecede(func(n ast.Node) bool { return n == top }, cpLoc), "C14.d", fn+"/sort orders the painted slice", call.Pos(), "Children are sorted before the painted copy is taken", "Children are sorted but the children are painted from "+cp.obj.Name()+", a copy that is not taken after the sort on every path: the painted order is the insertion order")
-			} else {
-				c.check(okCp && g.MustPrecede(func(n ast.Node) bool { return n == cp.madeAt }, sloc) && !g.ReachesAvoiding(sloc, cpLoc, nil), "C14.d", fn+"/sort orders the painted slice", call.Pos(), "the painted copy is sorted after it was filled", "the painted copy "+cp.obj.Name()+" is (re)filled from Children after it was sorted")
+		if pt != nil {
+			must, noBack, okEv := e.evOrder(pt.made, at)
+			switch {
+			case !okEv:
+				c.undecided("C14.d", fn+"/sort orders the painted slice", call.Pos(), "the statement that fills %s and the sort could not be placed on one control-flow graph", pt.obj.Name())
+			case pt.kind == "index" && target == chID:
+				// reordering Children themselves invalidates the indexes the slice holds
+				c.undecided("C14.d", fn+"/sort orders the painted slice", call.Pos(), "Children are reordered while they are painted through the index slice %s", pt.obj.Name())
+				continue
+			case pt.kind == "index":
+				c.check(must && noBack && !inLoop(at), "C14.d", fn+"/sort orders the painted slice", call.Pos(), "the index slice is sorted after it was filled", "the index slice "+pt.obj.Name()+" is (re)filled with the indexes of Children after it was sorted, or sorted before it is filled")
+			case target == chID:
+				// the sort must order the slice that is painted: either the copy (after it was filled), or Children before the copy is taken
+				pre, _, _ := e.evOrder(at, pt.made)
+				c.check(pre, "C14.d", fn+"/sort orders the painted slice", call.Pos(), "Children are sorted before the painted copy is taken", "Children are sorted but the children are painted from "+pt.obj.Name()+", a copy that is not taken after the sort on every path: the painted order is the insertion order")
+			default:
+				c.check(must && noBack && !inLoop(at), "C14.d", fn+"/sort orders the painted slice", call.Pos(), "the painted copy is sorted after it was filled", "the painted copy "+pt.obj.Name()+" is (re)filled from Children after it was sorted")
 			}
 		}
-		st, why, pos := e.judgeSort(at, target)
+		base := ""
+		if pt != nil && pt.kind == "index" {
+			base = chID
+		}
+		st, why, pos := e.judgeSort(at, target, base)
 		switch st {
 		case "ok":
 			c.ok("C14.d", k, pos, "%s", why)
